@@ -17,6 +17,7 @@ import (
 	"golang.org/x/tools/go/ssa"
 
 	"wvsa/internal/facts"
+	"wvsa/internal/inline"
 )
 
 // AllowedErrPkg is the only package that may report type errors (deliberate compile-time sentinel).
@@ -36,6 +37,11 @@ type Program struct {
 	Whole    bool
 	// rootSet marks packages whose function bodies are available.
 	rootSet map[*packages.Package]bool
+	// helper normalisation (see Options.Reviewed)
+	InlinedSites  []string
+	InlineSkipped []string
+	InlineNote    string
+	Hidden        map[*ssa.Function]bool
 }
 
 type Options struct {
@@ -45,9 +51,105 @@ type Options struct {
 	Overlay  map[string][]byte // absolute path -> content (checker self-test only)
 	MinRoots int
 	Env      []string
+	// Reviewed, when non-nil, reports whether a function (canonical name) existed on the reviewed
+	// tree; functions that did not are inlined back into their same-package call sites
+	// (internal/inline) before the program is handed to the rules.
+	Reviewed func(name string) bool
 }
 
+// Load loads the program and, when o.Reviewed is set, normalises new helper functions away.
 func Load(o Options) (*Program, error) {
+	p, err := load1(o)
+	if err != nil || o.Reviewed == nil {
+		return p, err
+	}
+	t0 := time.Now()
+	overlay := map[string][]byte{}
+	for k, v := range o.Overlay {
+		overlay[k] = v
+	}
+	read := func(name string) ([]byte, error) {
+		if b, ok := overlay[name]; ok {
+			return b, nil
+		}
+		return os.ReadFile(name)
+	}
+	var sites, skipped []string
+	for round := 0; round < 4; round++ {
+		var roots []*packages.Package
+		for _, r := range p.Roots {
+			if r.Module != nil && r.Module.Main {
+				roots = append(roots, r)
+			}
+		}
+		cur := p
+		isNew := func(obj *types.Func) bool {
+			fn := cur.SSA.FuncValue(obj)
+			if fn == nil {
+				return false
+			}
+			return !o.Reviewed(facts.FuncName(fn))
+		}
+		res, err := inline.Rewrite(roots, isNew, read)
+		if err != nil {
+			p.InlineNote = "helper normalisation abandoned: " + err.Error()
+			break
+		}
+		skipped = res.Skipped
+		if len(res.Overlay) == 0 {
+			break
+		}
+		for k, v := range res.Overlay {
+			overlay[k] = v
+		}
+		o2 := o
+		o2.Overlay = overlay
+		p2, err := load1(o2)
+		if err != nil {
+			// never let the normaliser turn a loadable tree into an unloadable one: fall back to
+			// the program as written
+			p.InlineNote = "helper normalisation abandoned (rewritten source does not load): " + err.Error()
+			if os.Getenv("WVSA_INLINE_DEBUG") != "" {
+				for k, v := range res.Overlay {
+					os.WriteFile("/tmp/wvsa_inline_"+filepath.Base(k), v, 0o644)
+				}
+			}
+			break
+		}
+		sites = append(sites, res.Sites...)
+		p = p2
+	}
+	p.InlinedSites, p.InlineSkipped = sites, skipped
+	// helpers whose every use was inlined are no longer part of the program the rules look at
+	if len(sites) > 0 {
+		p.Hidden = map[*ssa.Function]bool{}
+		refs := map[*ssa.Function]int{}
+		for _, f := range p.SrcFuncs("") {
+			for _, b := range f.Blocks {
+				for _, ins := range b.Instrs {
+					var ops []*ssa.Value
+					for _, op := range ins.Operands(ops) {
+						if op == nil || *op == nil {
+							continue
+						}
+						if g, ok := (*op).(*ssa.Function); ok && g != f {
+							refs[g]++
+						}
+					}
+				}
+			}
+		}
+		for _, f := range p.SrcFuncs("") {
+			if f.Parent() == nil && f.Object() != nil && !o.Reviewed(facts.FuncName(f)) && refs[f] == 0 {
+				p.Hidden[f] = true
+			}
+		}
+	}
+	p.LoadTime += time.Since(t0)
+	return p, nil
+}
+
+func load1(o Options) (*Program, error) {
 	t0 := time.Now()
 	mode := packages.LoadSyntax | packages.NeedModule
 	if o.Whole {
@@ -275,7 +377,7 @@ func (p *Program) SrcFuncs(prefix string) []*ssa.Function {
 	seen := map[*ssa.Function]bool{}
 	var add func(f *ssa.Function)
 	add = func(f *ssa.Function) {
-		if f == nil || seen[f] || len(f.Blocks) == 0 {
+		if f == nil || seen[f] || len(f.Blocks) == 0 || p.Hidden[f] {
 			return
 		}
 		seen[f] = true
